@@ -1008,12 +1008,12 @@ func first(a, _ []byte) []byte { return a }
 //@     invariant stackOK(q)
 //@   loop 2 (i)
 //@     ghost q0 = len(q)
-//@     invariant stackOK(q) && 0 <= i && i <= 4
+//@     invariant stackOK(q) && 0 <= i && i <= n4.childrenLen
 //@     invariant[count] len(q) == q0 + i
 //@     exit_ensures[every_child_pushed] len(q) == q0 + n4.childrenLen
 //@   loop 3 (i)
 //@     ghost q0 = len(q)
-//@     invariant stackOK(q) && 0 <= i && i <= 16
+//@     invariant stackOK(q) && 0 <= i && i <= n16.childrenLen
 //@     invariant[count] len(q) == q0 + i
 //@     exit_ensures[every_child_pushed] len(q) == q0 + n16.childrenLen
 //@   loop 4 (i)
